@@ -198,7 +198,13 @@ static void scenMonitor(int variant)
   if(variant == 0) { a.start(monWaiter, 0); b.start(monSetterAfterLock, 0); a.join(); b.join(); }       // a lost wake-up is a deadlock
   else if(variant == 1) { a.start(monTimedWaiter, (void*)(long)30); b.start(monTimedWaiter, (void*)(long)30); c.start(monSetter, 0); a.join(); b.join(); c.join(); vf_outcome("a=%d b=%d", results[1], results[2]); }
   else if(variant == 2) { a.start(monTimedWaiter, (void*)(long)40); a.join(); if(results[1]) vf_failf("C11:monitor:wait-without-set", "timed wait succeeded although set() was never called"); }
-  else { a.start(monWaitTwice, 0); b.start(monSetterAfterLock, 0); a.join(); b.join(); }
+  else if(variant == 3) { a.start(monWaitTwice, 0); b.start(monSetterAfterLock, 0); a.join(); b.join(); }
+  else
+  { // a set() that nobody waited for leaves the flag up; a waiter that arrives later still blocks (wait does not look at the flag first),
+    // so the next set() - issued after the waiter has taken the monitor - has to wake it
+    ++setStarted; m.set();
+    a.start(monWaiter, 0); b.start(monSetterAfterLock, 0); a.join(); b.join();
+  }
 }
 
 // ------------------------------------------------------------------------------------------------ Thread
@@ -255,7 +261,7 @@ static void scenDeadline(int variant)
 }
 
 struct Scen { const char* name; void (*fn)(int); int variants; };
-static const Scen SCEN[] = {{"mutex", scenMutex, 4}, {"semaphore", scenSemaphore, 4}, {"signal", scenSignal, 5}, {"monitor", scenMonitor, 4}, {"thread", scenThread, 3}, {"deadline", scenDeadline, 54}};
+static const Scen SCEN[] = {{"mutex", scenMutex, 4}, {"semaphore", scenSemaphore, 4}, {"signal", scenSignal, 5}, {"monitor", scenMonitor, 5}, {"thread", scenThread, 3}, {"deadline", scenDeadline, 54}};
 extern "C" int vf_scenario_count(void) { return (int)(sizeof(SCEN) / sizeof(*SCEN)); }
 extern "C" const char* vf_scenario_name(int id) { return SCEN[id].name; }
 extern "C" int vf_scenario_variants(int id) { return SCEN[id].variants; }
